@@ -323,6 +323,7 @@ func init() {
 			// so stability must also be decided beyond the small lists of the history search
 			c.Space("long-list-sort")
 			longOne := func(names []string) {
+				c.CurCase(func() *fw.Case { return &fw.Case{Kind: "c11-longsort", S: fw.Strs(names...)} })
 				c.Eval()
 				c.R.Traces++
 				c.R.Transitions++
@@ -388,6 +389,7 @@ func init() {
 				}
 				q := string(b)
 				for _, pre := range []string{"http://h/?", "foo:x?"} {
+					c.Cur("c11-parse", pre, q)
 					c.Eval()
 					c.R.Traces++
 					c.R.Transitions++
